@@ -67,6 +67,11 @@ def assemble_something(rng: random.Random, res: Res) -> None:
 
     mapping = rng.choice(["low", "low2", "high"])
     src = f"*={'0xC08000' if mapping == 'high' else '0x808000' if mapping == 'low2' else '0x008000'}\nstart:\nlda.w #0x1234\njsr.w start\n.dl start\n"
+    if rng.random() < 0.3:
+        # a project that describes its own cartridge layout: it is that assembly's business only
+        src = (".map identifier=1 bank_range=0x80, 0x8f addr_range=0x0000, 0xffff mask=0x10000\n.map identifier=2 bank_range=0x00, 0x0f addr_range=0x8000, 0xffff mask=0x8000 mirror_bank_range=0xc0, 0xcf\n"
+               "*=0x808000\nstart:\n.dl start\n*=0x008000\n.db 3\n")
+        res.count("assemblies_between_conversions[own .map]")
     if rng.random() < 0.5:
         file_api(rng.choice(["patch", "sfc"]), src, None, mapping, rng.random() < 0.5)
     else:
@@ -253,6 +258,29 @@ def check_program_reuse(res: Res, cx: Ctx, modes: list[str], offsets: list[int])
                 return
 
 
+def check_front_end(res: Res, mode: str, o: int, front: str, fmt: str) -> None:
+    """"Agree with the address mapping the assembler uses": through every way of running the assembler (file API and command line, patch
+    and image output) a byte placed at rom_to_snes(o, mode) under mapping `mode` lands at file offset o."""
+    from vf.frontends import cli_inprocess, file_api, image_of_ips
+
+    a = textbook(o, mode)
+    src = f"*={a:#08x}\n.db 0x5A, 0xA5\n"
+    wit = {"kind": "front_end", "mode": mode, "o": o, "front": front, "fmt": fmt}
+    res.case(("front", mode, o, front, fmt))
+    res.count(f"front_end_agreement[{front} {fmt}]")
+    fr = cli_inprocess("ips" if fmt == "patch" else "sfc", src, None, mode, False, None) if front == "cli" else file_api(fmt, src, None, mode, False)
+    got = None
+    if not fr.failed and fr.out is not None:
+        if fmt == "patch":
+            img, _ = image_of_ips(fr.out)
+            got = img.read(o, 2) if img is not None else None
+        else:
+            got = fr.out[o:o + 2] if len(fr.out) == o + 2 else None
+    if got != b"\x5a\xa5":
+        res.violate("assembler-disagrees", f"{front} {fmt} -m {mode}: `*={a:#x}` (= rom_to_snes({o:#x}, {mode})) did not put its bytes at file offset {o:#x} "
+                    f"(status {fr.status} {fr.exc}, output {'missing' if fr.out is None else str(len(fr.out)) + ' bytes'})", wit)
+
+
 def check_table(res: Res, base: int, width: int, entries: list[bytes], lead: int) -> None:
     """The consumer of the decoding formula: Script.read_pointers over a pointer table with `width`-byte entries
     (16-bit pointer followed by flag / bank bytes when width > 2)."""
@@ -414,6 +442,12 @@ def run_shard(shard: dict) -> Res:
             if i % 16 == 0:
                 check_converters_alive(res, [rng.choice(edges) + 0x8000 * rng.randrange(0, 0x60) for _ in range(rng.randint(2, 5))],
                                        [rng.choice(edges) if rng.random() < 0.4 else rng.randrange(0, 0x20000) for _ in range(rng.randint(1, 4))], rng.getrandbits(30))
+            if i % 32 == 0:
+                if rng.random() < 0.5:
+                    assemble_something(rng, res)
+                # image output only for small offsets (the image is as long as the offset)
+                fmt = rng.choice(["patch", "sfc"])
+                check_front_end(res, rng.choice(MODES), rng.choice([0, 0x7FFF, 0x8000, 0xFFFF, 0x10000]) if fmt == "sfc" or rng.random() < 0.3 else rng.randrange(0, 0x200000), rng.choice(["cli", "api"]), fmt)
             if i % 64 == 0:
                 k = rng.randint(2, 5)
                 check_program_reuse(res, cx, [rng.choice(MODES) for _ in range(k)], [rng.choice([0, 0x7FFF, 0x8000, 0x1FFFFE]) if rng.random() < 0.4 else rng.randrange(0, 0x200000) for _ in range(k)])
@@ -440,6 +474,8 @@ def replay(w: dict) -> Res:
         check_offset(res, cx, w["mode"], w["o"], w.get("style"))
     elif w["kind"] == "pointer":
         check_pointer(res, cx, w["base"], w["p"])
+    elif w["kind"] == "front_end":
+        check_front_end(res, w["mode"], w["o"], w["front"], w["fmt"])
     elif w["kind"] == "converters_alive":
         check_converters_alive(res, w["bases"], w["ps"], w["order_seed"])
     elif w["kind"] == "program_reuse":
